@@ -37,12 +37,13 @@ def run_seed(d: Path, props):
 
 def main():
     k = sys.argv[sys.argv.index("-k") + 1] if "-k" in sys.argv else ""
-    seeds = sorted(p for p in (VERIF / "seeded").iterdir() if p.is_dir() and k in p.name)
+    base = Path(sys.argv[sys.argv.index("--dir") + 1]) if "--dir" in sys.argv else VERIF / "seeded"
+    seeds = sorted(p for p in base.iterdir() if p.is_dir() and k in p.name and (p / "meta.json").exists())
     cl = claimed()
     out = {}
     def job(d):
         meta = json.load(open(d / "meta.json"))
-        props = cl if "--all-props" in sys.argv else [p for p in cl if p == meta["breaks_property"]] or []
+        props = cl if "--all-props" in sys.argv else [p for p in cl if p == meta.get("breaks_property", meta.get("property"))] or []
         if "--all-props" not in sys.argv:
             # also the properties that share machinery
             props = sorted(set(props) | set(x for x in cl if x in meta.get("also_check", [])))
@@ -57,7 +58,8 @@ def main():
             status = "CAUGHT" if caught else ("UNDECIDED" if undec else ("not-run" if not res else "MISSED"))
             print(f"{name}: {status} {json.dumps(caught) if caught else ''} {json.dumps(undec) if undec else ''}")
             out[name] = {"status": status, "caught_by": caught, "undecided": undec}
-    json.dump(out, open(VERIF / "seeded" / "RESULTS.json", "w"), indent=1, sort_keys=True)
+    if "--dir" not in sys.argv:
+        json.dump(out, open(VERIF / "seeded" / "RESULTS.json", "w"), indent=1, sort_keys=True)
 
 
 if __name__ == "__main__":
